@@ -314,6 +314,15 @@ static void do_op(void)
     ESL_MSAWEIGHT_CFG *cfg; ESL_MSAWEIGHT_DAT *dat;
     if (!msa || g_mode == 0 || h_argi("ns", 1) < 1) { esl_msa_Destroy(msa); h_out("bad-op"); return; }
     cfg = cfg_from_args(); dat = esl_msaweight_dat_Create();
+    if (h_argi("reuse", 0)) {   /* multi-step history: the same ESL_MSAWEIGHT_DAT used for another configuration first, then _Reuse()d */
+      ESL_MSAWEIGHT_CFG *cfg0 = esl_msaweight_cfg_Create(); int i;
+      cfg0->ignore_rf = TRUE; cfg0->symfrac = (h_argi("reuse", 0) == 1 ? 0.0 : 1.0); cfg0->sampthresh = (h_argi("reuse", 0) == 3 ? 1 : cfg0->sampthresh); cfg0->nsamp = 2;
+      esl_msaweight_PB_adv(cfg0, msa, dat);
+      esl_msaweight_dat_Reuse(dat);
+      esl_msaweight_cfg_Destroy(cfg0);
+      for (i = 0; i < msa->nseq; i++) msa->wgt[i] = 1.0;
+      msa->flags &= ~eslMSA_HASWGTS;
+    }
     st = esl_msaweight_PB_adv(cfg, msa, dat);
     if (st != eslOK || h_exception_seen) h_out("%s exc=%d", h_status(st), h_exception_seen ? 1 : 0);
     else {
@@ -417,6 +426,57 @@ static void do_op(void)
     }
     o_reset(); o_add("%s %s", h_status(st), h_dbits(avgid)); o_add(" %s", h_dbits(avgconn)); h_out("%s", ob);
     esl_msa_Destroy(msa);
+  }
+  else if (!strcmp(op, "ragged")) {   /* matrix / averaging routines on sequences that need not be aligned (error paths) */
+    const char *sq = h_arg("seqs"), *p; int maxc = (int) h_argi("max", 0), n = 0, i, bad = 0;
+    int K = (g_mode == 0) ? (int) h_argi("k", 4) : g_abc->K;
+    char **as = NULL; ESL_DSQ **ax = NULL; char *copy, *tok, *save = NULL;
+    ESL_DMATRIX *S = NULL, *Dm = NULL, *J = NULL, *V = NULL; int st1, st2, st3, st4, st5, st6 = eslOK;
+    double avgid = 0., avgm = 0., cid = -1., cconn = -1.; int skipavg = 0, ragged = 0; int64_t len0 = 0;
+    /* esl_dst_{C,X}Average{Id,Match} `return status` straight out of their loops when a pair is not aligned: the output is left
+     * untouched (so it is preset to the 0 the sibling routines store) and, in the sampling branch, the ESL_RANDOMNESS is
+     * leaked (proposed fix: /var/tmp/fixes-proposed/C16-average-error-paths.patch) - that combination is not driven. */
+    if (!sq || maxc < 1 || K < 2) { h_out("bad-op"); return; }
+    for (p = sq, n = 1; *p; p++) if (*p == ',') n++;
+    as = calloc(n, sizeof(char *)); ax = calloc(n, sizeof(ESL_DSQ *));
+    copy = strdup(sq);
+    for (i = 0, tok = strtok_r(copy, ",", &save); tok && i < n; tok = strtok_r(NULL, ",", &save), i++) {
+      int64_t len = 0, k; unsigned char *b = strcmp(tok, "-") ? h_unhex(tok, &len) : NULL;
+      as[i] = malloc(len + 1); ax[i] = malloc(len + 2);
+      for (k = 0; k < len; k++) { if ((g_mode == 0 && b[k] == 0) || (g_mode != 0 && b[k] >= g_abc->Kp)) bad = 1; as[i][k] = (char) b[k]; ax[i][k+1] = b[k]; }
+      as[i][len] = 0; ax[i][0] = ax[i][len+1] = eslDSQ_SENTINEL;
+      if (i == 0) len0 = len; else if (len != len0) ragged = 1;
+      free(b);
+    }
+    if (i != n) bad = 1;
+    if (!bad) {
+      int exhaustive = (n <= maxc && (int64_t) n * n <= 2 * (int64_t) maxc && (n * (n-1) / 2) <= maxc);
+      skipavg = (n > 1 && !exhaustive && ragged);
+      st4 = st5 = eslOK;
+      if (g_mode == 0) {
+        st1 = esl_dst_CPairIdMx(as, n, &S);  st2 = esl_dst_CDiffMx(as, n, &Dm);  st3 = esl_dst_CJukesCantorMx(K, as, n, &J, &V);
+        if (!skipavg) { st4 = esl_dst_CAverageId(as, n, maxc, &avgid);  st5 = esl_dst_CAverageMatch(as, n, maxc, &avgm); }
+      } else {
+        st1 = esl_dst_XPairIdMx(g_abc, ax, n, &S);  st2 = esl_dst_XDiffMx(g_abc, ax, n, &Dm);  st3 = esl_dst_XJukesCantorMx(g_abc, ax, n, &J, &V);
+        if (!skipavg) { st4 = esl_dst_XAverageId(g_abc, ax, n, maxc, &avgid);  st5 = esl_dst_XAverageMatch(g_abc, ax, n, maxc, &avgm); }
+        st6 = esl_dst_XAvgConnectivity(g_abc, ax, n, maxc, h_argbits("th"), &cid, &cconn);
+      }
+      o_reset();
+      o_add("ok pidmx=%s%s", h_status(st1), ((st1 == eslOK) != (S != NULL)) ? "-nullness" : "");
+      o_add(" diffmx=%s%s", h_status(st2), ((st2 == eslOK) != (Dm != NULL)) ? "-nullness" : "");
+      o_add(" jcmx=%s%s", h_status(st3), ((st3 == eslOK) != (J != NULL) || (st3 == eslOK) != (V != NULL)) ? "-nullness" : "");
+      if (skipavg) o_add(" avgid=skip avgmatch=skip");
+      else {
+        o_add(" avgid=%s:%s", h_status(st4), h_dbits(avgid));
+        o_add(" avgmatch=%s:%s", h_status(st5), h_dbits(avgm));
+      }
+      if (g_mode == 0) o_add(" conn=-");
+      else { o_add(" conn=%s:%s", h_status(st6), h_dbits(cid)); o_add(":%s", h_dbits(cconn)); }
+      h_out("%s", ob);
+    } else h_out("bad-op");
+    esl_dmatrix_Destroy(S); esl_dmatrix_Destroy(Dm); esl_dmatrix_Destroy(J); esl_dmatrix_Destroy(V);
+    for (i = 0; i < n; i++) { free(as[i]); free(ax[i]); }
+    free(as); free(ax); free(copy);
   }
   else if (!strcmp(op, "upgma")) {   /* esl_tree_UPGMA on an explicit symmetric matrix (upper triangle given row-major) */
     int n = (int) h_argi("n", 0), i, j, st, valid; const char *dl = h_arg("d"), *p; ESL_DMATRIX *D; ESL_TREE *T = NULL;
